@@ -267,6 +267,7 @@ def _unhoist_conditions(body):
             if not inside or r.parent is None:
                 continue
             init = v.c[0]
+            init.d = dict(init.d, unhoisted=1)
             par = r.parent
             par.c = [init if y is r else y for y in par.c]
             init.parent = par
